@@ -653,8 +653,27 @@ func (g *gen) rangeOf(sc scope) *Node {
 	}
 }
 
+// boundCond: the comparison that ends a @for. A bound read from the match is
+// empty in the all-empty context the optimiser probes with; {lt {1} ""} is
+// <BAD-TYPE>, which is truthy, so the probe would run to @for's 1 000 000
+// iteration cap (0.3 s with a number, an honest >10 min of copying when the
+// value is a text that grows every round). The comparison is therefore
+// guarded by the bound itself: {if {n} {lt {1} {n}} ""}.
+func boundCond(op string, bound *Node, boundFirst bool, other *Node) *Node {
+	var cmp *Node
+	if boundFirst {
+		cmp = call(op, bound, other)
+	} else {
+		cmp = call(op, other, bound)
+	}
+	if bound.T == "lit" {
+		return cmp
+	}
+	return call("if", bound, cmp, lit(""))
+}
+
 // forOf: {@for start while incr}, built so that the documented iteration ends
-// after a few steps in every context.
+// after a few steps in every context (the optimiser's empty one included).
 func (g *gen) forOf(sc scope, depth int) (*Node, string) {
 	if depth < 0 {
 		depth = 0
@@ -672,19 +691,28 @@ func (g *gen) forOf(sc scope, depth int) (*Node, string) {
 		default:
 			step = lit(itoa(g.n(1, 3, "step")))
 		}
+		// a start read from the match is empty in the optimiser's probe
+		// context, the comparison then <BAD-TYPE> (truthy) for ever: guard
+		// the comparison by the value being a number
+		numGuard := func(cond *Node, dyn bool) *Node {
+			if !dyn {
+				return cond
+			}
+			return call("if", call("isint", grp(0)), cond, lit(""))
+		}
 		if g.p(35, "fordown") {
-			cond := call(g.pick([]string{"gt", "gte"}, "forcmp"), grp(0), b)
+			cond := boundCond(g.pick([]string{"gt", "gte"}, "forcmp"), b, false, grp(0))
 			incr := call("subi", grp(0), step)
-			return call("@for", start, g.quoteMaybe(cond), g.quoteMaybe(incr)), tNum
+			return call("@for", start, g.quoteMaybe(numGuard(cond, start.T != "lit")), g.quoteMaybe(incr)), tNum
 		}
 		var cond *Node
 		switch g.n(0, 2, "forcond") {
 		case 0:
-			cond = call("lt", grp(0), b)
+			cond = boundCond("lt", b, false, grp(0))
 		case 1:
-			cond = call("lte", grp(0), b)
+			cond = boundCond("lte", b, false, grp(0))
 		default:
-			cond = call("gt", b, grp(0))
+			cond = boundCond("gt", b, true, grp(0))
 		}
 		var incr *Node
 		switch g.n(0, 3, "forincr") {
@@ -695,17 +723,17 @@ func (g *gen) forOf(sc scope, depth int) (*Node, string) {
 		case 2:
 			incr = call("sumi", grp(0), step, grp(1))
 		default:
-			incr = call("sumi", grp(0), step, key("n"))
+			incr = call("sumi", grp(0), step, call("len", key("n")))
 		}
-		return call("@for", start, g.quoteMaybe(cond), g.quoteMaybe(incr)), tNum
+		return call("@for", start, g.quoteMaybe(numGuard(cond, start.T != "lit")), g.quoteMaybe(incr)), tNum
 	}
 	// bounded by the index
 	ty := g.pick([]string{tNum, tAscii, tAny}, "forty")
 	b := g.sureNum(scope{}, 0, 10)
 	inner := scope{v0: ty, v1: tNum}
-	var cond *Node = call("lt", grp(1), b)
+	var cond *Node = boundCond("lt", b, false, grp(1))
 	if g.p(30, "forand") {
-		cond = call("if", call("lt", grp(1), b), g.pred(inner, depth), lit(""))
+		cond = call("if", boundCond("lt", b, false, grp(1)), g.pred(inner, depth), lit(""))
 	}
 	var start *Node
 	if ty == tNum {
